@@ -270,6 +270,40 @@ func (t *target) allocLimit(inLen int) uint64 {
 	return calls * (64<<20 + per*uint64(inLen))
 }
 
+// allocLimitOf / cpuLimitOf are the bounds of one run on one input: the target's own bound functions when it has them
+// (targets whose input is a DESCRIPTION of a large stream, not the stream), else the defaults by input length.
+func (t *target) allocLimitOf(in []byte) uint64 {
+	if t.allocBound != nil {
+		return t.allocBound(in)
+	}
+	return t.allocLimit(len(in))
+}
+
+func (t *target) cpuLimitOf(in []byte) int64 {
+	if t.cpuBound != nil {
+		return t.cpuBound(in)
+	}
+	return t.cpuLimit(len(in))
+}
+
+// oracleErr is returned by a target's run function when the target itself observed resource behaviour the property
+// forbids that the allocation / CPU accounting of the child cannot see (a read that does not end where its message
+// ends). It becomes a "V" outcome in the journal and a violation `<Kind> target=<t> class=<Class>` in the parent.
+type oracleErr struct {
+	Kind   string `json:"kind"`  // "blow-up"
+	Class  string `json:"class"` // stable: construction class + what was observed
+	Detail string `json:"detail"`
+}
+
+func (e *oracleErr) Error() string { return e.Kind + ": " + e.Class + ": " + e.Detail }
+
+func isOracleErr(err error) *oracleErr {
+	if oe, ok := err.(*oracleErr); ok {
+		return oe
+	}
+	return nil
+}
+
 type callResult struct {
 	err   error
 	pan   *panicInfo
@@ -400,7 +434,7 @@ func Child(args []string) int {
 		line = append(line, '\n')
 		jf.Write(line)
 		atomic.StoreInt64(&curIdx, int64(i))
-		atomic.StoreInt64(&curLimit, t.cpuLimit(len(ins[i].data)))
+		atomic.StoreInt64(&curLimit, t.cpuLimitOf(ins[i].data))
 		st := cpuMicros()
 		if st == 0 {
 			st = 1
@@ -415,6 +449,16 @@ func Child(args []string) int {
 		case res.pan != nil:
 			j, _ := json.Marshal(res.pan)
 			line = append(line, " p "...)
+			line = strconv.AppendUint(line, res.alloc, 10)
+			line = append(line, ' ')
+			line = strconv.AppendInt(line, res.cpu, 10)
+			line = append(line, ' ')
+			line = strconv.AppendInt(line, res.wall, 10)
+			line = append(line, ' ')
+			line = append(line, base64.StdEncoding.EncodeToString(j)...)
+		case isOracleErr(res.err) != nil:
+			j, _ := json.Marshal(isOracleErr(res.err))
+			line = append(line, " v "...)
 			line = strconv.AppendUint(line, res.alloc, 10)
 			line = append(line, ' ')
 			line = strconv.AppendInt(line, res.cpu, 10)
@@ -442,7 +486,7 @@ func Child(args []string) int {
 		}
 		line = append(line, '\n')
 		jf.Write(line)
-		if res.alloc > t.allocLimit(len(ins[i].data)) && res.pan == nil {
+		if res.alloc > t.allocLimitOf(ins[i].data) && res.pan == nil {
 			// repeat the call once between two memory-profile snapshots: confirms the measurement and names the site
 			alloc2, site := attributeAlloc(t, ins[i].data)
 			fmt.Fprintf(jf, "A %d %d %s\n", i, alloc2, site)
